@@ -16,7 +16,9 @@ import (
 
 // vAnyValue draws a YAML-decodable value of an arbitrary dynamic type.
 func vAnyValue(name string) any {
-	switch verifapi.NondetChoice(name, 7) {
+	switch verifapi.NondetChoice(name, 8) {
+	case 6: // what yaml.v3 produces for a mapping with a non-string key
+		return map[any]any{404: "v"}
 	case 0:
 		return "some-id"
 	case 1:
